@@ -420,7 +420,9 @@ func vGetProxy(kind cache.EntryKind, mode casblob.CompressionType, wantZstd bool
 		} else {
 			vsym.Reach("proxyget-miss")
 		}
-		// nothing cached, nothing left behind
+		// nothing cached, nothing left behind (once the encoder goroutine of
+		// an on-the-fly compressed read has noticed that its reader is gone)
+		vsym.Quiesce()
 		d.drain()
 		_, el := c.lru.Get(key)
 		vsym.Assert(el == nil, "proxyget/C12-failed-fetch-caches-nothing")
